@@ -50,6 +50,13 @@ Proof.
     + destruct (is_dt_key k'); simpl; now rewrite IH.
 Qed.
 
+Lemma drop_dt_nd_to c d dev nd : drop_dt (nd_to c d dev nd) = drop_dt nd.
+Proof.
+  unfold nd_to. destruct (keeps_dt c); [|reflexivity].
+  destruct (keep_or k_dtype (dt_val d) nd); [|reflexivity]. destruct (keep_or k_device (dev_val dev) nd); [|reflexivity].
+  rewrite !drop_dt_set_key; reflexivity.
+Qed.
+
 Section WithDef.
 Variable defdt : dt.
 Notation dflt := (dflt_attrs defdt).
@@ -79,9 +86,10 @@ Proof.
             (forall d dev, losslessb defdt x = true -> vshape (conv_to defdt d dev x) = vshape x) ->
             vshape (guard_arg defdt d dev x) = vshape x).
   { intros x Lx IHx. destruct x as [t|v|c0 ch0 dn0 nd0 at0]; [| reflexivity |].
-    - unfold guard_arg. simpl dtype_of. destruct d as [d'|]; [|apply vshape_strip].
+    - unfold guard_arg. simpl dtype_of. destruct d as [d'|]; [|now apply IHx].
       destruct (Bool.eqb _ _); now apply IHx.
-    - unfold guard_arg. destruct (dtype_of _) as [da|]; [|apply vshape_strip]. destruct d as [d'|]; [|apply vshape_strip].
+    - unfold guard_arg. destruct d as [d'|]; [|destruct (dtype_of _); now apply IHx].
+      destruct (dtype_of _) as [da|]; [|apply vshape_strip].
       destruct (Bool.eqb _ _); now apply IHx. }
   assert (ALL : Forall (fun x => losslessb defdt x = true /\
             (forall d dev, losslessb defdt x = true -> vshape (conv_to defdt d dev x) = vshape x)) ch).
@@ -94,14 +102,19 @@ Proof.
       rewrite E. clear E. f_equal.
       * apply map_ext_Forall. apply Forall_firstn. eapply Forall_impl; [|exact ALL]. intros x [Lx Hx]. now apply GA.
       * apply map_ext_Forall. apply Forall_skipn. eapply Forall_impl; [|exact ALL]. intros x [Lx Hx]. now apply Hx.
-    + unfold nd_to. destruct (cls_eqb c CIdentity); [|reflexivity].
-      rewrite !drop_dt_set_key; reflexivity.
+    + apply drop_dt_nd_to.
   - destruct (cls_eqb c CCat).
     + rewrite !vshape_op, <- L1. f_equal.
       * rewrite !vshape_list_map, map_map. apply map_ext_Forall. eapply Forall_impl; [|exact ALL]. intros x [Lx Hx].
         destruct d as [d'|]; simpl; [now apply TYP|apply vshape_strip].
       * now rewrite drop_dt_set_key.
-    + rewrite !vshape_op, <- L1. f_equal.
+    + assert (STR : vshape_list (strip_list ch) = vshape_list ch).
+      { rewrite strip_list_map, !vshape_list_map, map_map. apply map_ext. intros a. apply vshape_strip. }
+      destruct (cls_eqb c CPermutation).
+      { rewrite !vshape_op, <- L1, STR. f_equal. destruct d as [d'|]; [|reflexivity]. simpl. now rewrite drop_dt_set_key. }
+      destruct (cls_eqb c CZero).
+      { rewrite !vshape_op, <- L1, STR. f_equal. apply drop_dt_nd_to. }
+      rewrite !vshape_op, <- L1. f_equal.
       rewrite !vshape_list_map, map_map. apply map_ext_Forall. eapply Forall_impl; [|exact ALL]. intros x [Lx Hx]. now apply Hx.
 Qed.
 
@@ -114,8 +127,10 @@ Proof.
   - now apply vshape_conv_to.
   - destruct o as [t|v|c ch dn nd at_]; try reflexivity. simpl.
     pose proof L as L0. rewrite losslessb_op in L. apply andb_prop in L as [L1 L2]. apply kvl_eqb_eq in L1.
-    destruct (cls_eqb c CIdentity).
-    { rewrite !vshape_op, <- L1. f_equal. now rewrite drop_dt_set_key. }
+    destruct (keeps_dt c).
+    { rewrite !vshape_op, <- L1. f_equal.
+      - rewrite strip_list_map, !vshape_list_map, map_map. apply map_ext. intros a. apply vshape_strip.
+      - now rewrite drop_dt_set_key. }
     destruct (cls_eqb c CTransposePermutation).
     { rewrite !vshape_op. f_equal.
       - rewrite strip_list_map, !vshape_list_map, map_map. apply map_ext. intros a. apply vshape_strip.
@@ -156,7 +171,10 @@ Proof.
     assert (SAFE : match d with
                    | Some d' => is_float d' = true /\
                        (if guarded c then sfix (nargs ch dn) ch 0
-                        else if cls_eqb c CCat then forallb to_safe_sub ch else forallb to_safe ch) = true
+                        else if cls_eqb c CCat then forallb to_safe_sub ch
+                        else if cls_eqb c CPermutation then forallb is_index ch
+                        else if cls_eqb c CZero then forallb (fun x => negb (is_diff x)) ch
+                        else forallb to_safe ch) = true
                    | None => True
                    end).
     { destruct d as [d'|]; [|exact I]. destruct OK as [F S]. rewrite to_safe_op in S. apply andb_prop in S as [_ S]. auto. }
@@ -185,7 +203,7 @@ Proof.
         assert (Hin : In x ch) by (rewrite <- (firstn_skipn (nargs ch dn) ch); apply in_or_app; now left).
         rewrite Forall_forall in ALL. destruct (ALL x Hin) as [Lx IHx].
         destruct x as [t|v|c0 ch0 dn0 nd0 at0]; [| reflexivity |].
-        -- unfold guard_arg. simpl dtype_of. destruct d as [d'|]; [|apply NONE].
+        -- unfold guard_arg. simpl dtype_of. destruct d as [d'|]; [|reflexivity].
            destruct SAFE as [F _]. rewrite F. unfold cast_rule, obs. simpl.
            destruct (is_float (tdt t)); reflexivity.
         -- unfold guard_arg. destruct d as [d'|].
@@ -193,7 +211,7 @@ Proof.
               pose proof (forallb_In _ _ _ S1 Hx) as Sx. change (to_safe (AOp c0 ch0 dn0 nd0 at0) = true) in Sx.
               destruct (to_safe_dtype _ _ _ _ _ Sx) as [da [D Fa]]. rewrite D, Fa, F. cbn [Bool.eqb].
               apply IHx; [exact Lx|split; assumption].
-           ++ destruct (dtype_of _); apply NONE.
+           ++ destruct (dtype_of _); (apply IHx; [exact Lx|exact I]).
       * apply leaves_map_rel. apply Forall_forall. intros x Hx.
         assert (Hin : In x ch) by (rewrite <- (firstn_skipn (nargs ch dn) ch); apply in_or_app; now right).
         rewrite Forall_forall in ALL. destruct (ALL x Hin) as [Lx IHx]. apply IHx; [exact Lx|].
@@ -203,7 +221,25 @@ Proof.
       * rewrite leaves_op. apply leaves_map_rel. apply Forall_forall. intros x Hx.
         rewrite Forall_forall in ALL. destruct (ALL x Hx) as [Lx IHx]. destruct d as [d'|]; simpl; [|apply NONE].
         destruct SAFE as [F S]. apply TYP; auto. eapply forallb_In; eauto.
-      * rewrite leaves_op. apply leaves_map_rel. apply Forall_forall. intros x Hx.
+      * assert (STR : forall (P : arg -> bool) (r : tensor -> nat * dt * bool),
+                  (forall x, P x = true -> map obs (leaves (strip x)) = map r (leaves x)) ->
+                  forallb P ch = true -> map obs (leaves_list (strip_list ch)) = map r (leaves_list ch)).
+        { intros P r HP FP. rewrite strip_list_map. apply leaves_map_rel. apply Forall_forall. intros x Hx.
+          apply HP. eapply forallb_In; eauto. }
+        destruct (cls_eqb c CPermutation).
+        { rewrite leaves_op. destruct d as [d'|].
+          - destruct SAFE as [F S]. apply (STR is_index); [|exact S].
+            intros x Px. destruct x as [t| |]; try discriminate Px. simpl in Px. simpl. unfold obs, cast_rule. simpl.
+            destruct (is_float (tdt t)); [discriminate Px|reflexivity].
+          - apply (STR (fun _ => true)); [|clear; induction ch; simpl; auto].
+            intros x _. apply NONE. }
+        destruct (cls_eqb c CZero).
+        { rewrite leaves_op. destruct d as [d'|].
+          - destruct SAFE as [F S]. apply (STR (fun x => negb (is_diff x))); [|exact S].
+            intros x Px. destruct x; try discriminate Px. reflexivity.
+          - apply (STR (fun _ => true)); [|clear; induction ch; simpl; auto].
+            intros x _. apply NONE. }
+        rewrite leaves_op. apply leaves_map_rel. apply Forall_forall. intros x Hx.
         rewrite Forall_forall in ALL. destruct (ALL x Hx) as [Lx IHx]. apply IHx; [exact Lx|].
         destruct d as [d'|]; [|exact I]. destruct SAFE as [F S]. split; [exact F|]. eapply forallb_In; eauto.
 Qed.
@@ -217,10 +253,15 @@ Proof.
   - now apply leaves_lmap.
   - apply leaves_conv_to; [exact L|]. destruct d as [d'|]; [|exact I]. simpl in S. apply andb_prop in S. exact S.
   - destruct o as [t|v|c ch dn nd at_]; try discriminate OP.
-    simpl in S. apply andb_prop in S as [F T]. apply andb_prop in T as [T NOCH]. unfold conv_type.
+    simpl in S. apply andb_prop in S as [F T]. apply andb_prop in T as [T NOZ]. apply andb_prop in T as [T NOCH].
+    unfold conv_type, keeps_dt.
     rewrite losslessb_op in L. apply andb_prop in L as [_ L2]. pose proof (lossless_list_Forall defdt ch L2) as LF.
     destruct (cls_eqb c CIdentity) eqn:ID.
     { simpl in NOCH. destruct ch; [reflexivity|discriminate]. }
+    destruct (cls_eqb c CZero) eqn:ZERO.
+    { cbn [orb]. rewrite !leaves_op. rewrite strip_list_map. apply leaves_map_rel. apply Forall_forall. intros x Hx.
+      pose proof (forallb_In _ _ _ NOZ Hx) as Px. destruct x; try discriminate Px. reflexivity. }
+    simpl.
     destruct (cls_eqb c CTransposePermutation) eqn:TP.
     { simpl in NOCH. destruct ch; [reflexivity|discriminate]. }
     rewrite !leaves_op. apply leaves_map_rel. apply Forall_forall. intros x Hx.
